@@ -17,8 +17,9 @@
 //        sentinel), ld = held key/value instances that the registry does not list as alive, q = live instances at the
 //        quiescent point of "fini" (everything destroyed), -1 otherwise
 // "fini <i>" destroys both variables, records the number of live instances, and recreates them as default HashMaps.
-// Not called (they do not compile when instantiated with T != V): HashMap::front() const / back() const,
-// PoolMap::front() const / back() const.  The non-const front()/back() are used.
+// HashMap / PoolMap::front() const / back() const were declared with the KEY type as their result (they did not compile for the
+// pool map of this driver and returned a reference to a temporary where the value converts to the key); repaired, and called
+// by the front / back operations next to the non-const overloads.
 #include "drv.h"
 #include "tracked.h"
 #include <nstd/HashMap.hpp>
@@ -357,11 +358,16 @@ void drv_apply(const char* op)
   {
     if(n == 0) NOP();
     if(K == K_MAP) r = ser(x.m->front().serial); else if(K == K_SET) r = ser(x.s->front().serial); else r = ser(x.p->front().serial);
+    // the const overloads must name the same element
+    { const TMap* cm = x.m; const TSet* cs = x.s; const TPool* cp = x.p;
+      if(K == K_MAP ? &cm->front() != &x.m->front() : K == K_SET ? &cs->front() != &x.s->front() : &cp->front() != &x.p->front()) r = -7; }
   }
   else if(!strcmp(op, "back"))
   {
     if(n == 0) NOP();
     if(K == K_MAP) r = ser(x.m->back().serial); else if(K == K_SET) r = ser(x.s->back().serial); else r = ser(x.p->back().serial);
+    { const TMap* cm = x.m; const TSet* cs = x.s; const TPool* cp = x.p;
+      if(K == K_MAP ? &cm->back() != &x.m->back() : K == K_SET ? &cs->back() != &x.s->back() : &cp->back() != &x.p->back()) r = -7; }
   }
   else if(!strcmp(op, "eq"))
   {
